@@ -100,6 +100,10 @@ func (r *runner) encOnce(specs []PSpec) (EncObs, string, string) {
 
 func (r *runner) doEnc(kind string, specs []PSpec) {
 	c := r.c
+	if r.w.hangs > 25 {
+		c.Count("skipped-after-repeated-hangs")
+		return
+	}
 	o, fail, desc := r.encOnce(specs)
 	c.Eval()
 	c.Count("enc:" + kind)
@@ -179,6 +183,10 @@ func (r *runner) shrinkEnc(specs []PSpec, class, desc string) ([]PSpec, string) 
 
 func (r *runner) doDec(kind string, b []byte) {
 	c := r.c
+	if r.w.hangs > 25 {
+		c.Count("skipped-after-repeated-hangs")
+		return
+	}
 	if len(b) > 1024 {
 		b = b[:1024]
 	}
@@ -212,6 +220,9 @@ func (r *runner) shrinkDec(b []byte, class, desc string) ([]byte, string) {
 		return false
 	}
 	budget := 3000
+	if r.w.hangs > 0 {
+		budget = 40
+	}
 	for changed := true; changed && budget > 0; {
 		changed = false
 		for chunk := len(b) / 2; chunk >= 1 && !changed; chunk /= 2 {
